@@ -25,6 +25,7 @@ type histMember struct {
 	Type string `json:"type"` // int8..uint64, float32, float64, string
 	Size uint32 `json:"size"` // string members: length
 	Off  uint32 `json:"off"`
+	Via  string `json:"via"` // "" = core.CreateBasicDatatypeMessage; "encode" = EncodeDatatypeMessage + ParseDatatypeMessage
 }
 
 var arrayByBase = map[string]hdf5.Datatype{
@@ -123,6 +124,18 @@ func histWriteVlen(d *hdf5.DatasetWriter, op *histOp) error {
 }
 
 func memberType(m *histMember) (*core.DatatypeMessage, error) {
+	t, err := memberType0(m)
+	if err != nil || m.Via != "encode" {
+		return t, err
+	}
+	enc, err := core.EncodeDatatypeMessage(&core.DatatypeMessage{Class: t.Class, Version: 1, Size: t.Size, ClassBitField: t.ClassBitField})
+	if err != nil {
+		return nil, err
+	}
+	return core.ParseDatatypeMessage(enc)
+}
+
+func memberType0(m *histMember) (*core.DatatypeMessage, error) {
 	sz := map[string]uint32{"int8": 1, "uint8": 1, "int16": 2, "uint16": 2, "int32": 4, "uint32": 4, "int64": 8, "uint64": 8}
 	switch {
 	case m.Type == "float32":
